@@ -110,28 +110,46 @@ def check(an, rep, tier):
     # --- O-pivot
     fn = prog.func('transformation.truncate')
     mod = fn.module
+    # integer expressions are folded with d = 5 (d is whatever name is bound
+    # to len(<tensor argument>); no variable names are assumed)
+    D_ = 5
+    env_ = {'len(%s)' % fn.params[0]: D_}
+    for node in ast.walk(fn.node):
+        if isinstance(node, ast.Assign) and \
+                isinstance(node.targets[0], ast.Name) and \
+                isinstance(node.value, ast.Call) and \
+                isinstance(node.value.func, ast.Name) and \
+                node.value.func.id == 'len' and node.value.args and \
+                isinstance(node.value.args[0], ast.Name) and \
+                node.value.args[0].id == fn.params[0]:
+            env_[node.targets[0].id] = D_
+    fold = lambda x: F._eval_int(x, env_) if x is not None else None
     pivots = []
     for node in ast.walk(fn.node):
         if isinstance(node, ast.Call) and \
                 (prog.dotted(node.func) or '').endswith('orthogonalize'):
             piv = node.args[1] if len(node.args) > 1 else None
-            pivots.append(paths.src(mod, piv) if piv is not None else None)
+            for k_ in node.keywords:
+                if k_.arg == 'k':
+                    piv = k_.value
+            pivots.append(fold(piv))
     norms = []
     for node in ast.walk(fn.node):
         if isinstance(node, ast.Call) and \
                 (prog.dotted(node.func) or '').endswith('linalg.norm') and \
                 node.args and isinstance(node.args[0], ast.Subscript):
-            norms.append(paths.src(mod, node.args[0].slice))
-    loops = [paths.src(mod, n.iter).replace(' ', '') for n in ast.walk(fn.node)
+            norms.append(fold(node.args[0].slice))
+    loops = [tuple(fold(a_) for a_ in n.iter.args)
+             for n in ast.walk(fn.node)
              if isinstance(n, ast.For) and isinstance(n.iter, ast.Call) and
-             len(n.iter.args) == 3]
-    ok = bool(pivots) and all(p and p.replace(' ', '') == 'd-1'
-                              for p in pivots) and \
-        bool(norms) and all(x.replace(' ', '') in ('-1', 'd-1')
-                            for x in norms) and \
-        any(l == 'range(d-1,0,-1)' for l in loops)
+             isinstance(n.iter.func, ast.Name) and n.iter.func.id == 'range'
+             and len(n.iter.args) == 3]
+    ok = bool(pivots) and all(p == D_ - 1 for p in pivots) and \
+        bool(norms) and all(x in (-1, D_ - 1) for x in norms) and \
+        any(l == (D_ - 1, 0, -1) for l in loops)
     rep.add('O-pivot', 'transformation.truncate',
-            'pivot %s / norm core %s / sweep %s' % (pivots, norms, loops),
+            'pivot / norm core / sweep range folded at d=%d: %s / %s / %s'
+            % (D_, pivots, norms, loops),
             'ok' if ok else 'violation',
             '' if ok else 'the orthogonalisation pivot, the core the norm is '
             'read from and the start of the sweep must all be the last core '
